@@ -8,9 +8,10 @@
 enum { ST_TIMER, ST_DATA, ST_READ, ST_WRITE, ST_SIGNAL, ST_N };
 static const char *const stn[ST_N] = { "timer", "data-add", "read", "write", "signal" };
 #define C16_SIGNO SIGUSR1
-enum { CM_BEFORE_ACTIVATE, CM_FROM_HANDLER, CM_FROM_TARGET_ITEM, CM_OTHER_THREAD, CM_TWICE, CM_AND_WAIT, CM_N };
+enum { CM_BEFORE_ACTIVATE, CM_FROM_HANDLER, CM_FROM_TARGET_ITEM, CM_OTHER_THREAD, CM_TWICE, CM_AND_WAIT, CM_FROM_REGISTRATION, CM_N };
 static const char *const cmn[CM_N] = { "cancel before activation", "cancel from its own handler", "cancel from an item on its serial target queue",
-	"cancel from another thread", "cancel twice from other threads", "dispatch_source_cancel_and_wait from another thread" };
+	"cancel from another thread", "cancel twice from other threads", "dispatch_source_cancel_and_wait from another thread",
+	"cancel from its own registration handler (events already pending)" };
 
 static struct {
 	int stype, cmode, tqkind, use_socket, peer_closes, cancel_after, sibling;
@@ -50,7 +51,7 @@ static void event_handler(void *ctx) {
 	if (C.ch_count) { C.starts_after_ch++; h_viol("handler-after-cancel-handler", "the event handler started after the cancellation handler had run"); }
 	if (C.cancel_call && st > C.cancel_call) C.starts_after_cancel_call++;
 	if (C.cancel_ret && st > C.cancel_ret) C.starts_after_cancel_ret++;
-	if ((C.cmode == CM_FROM_HANDLER || C.cmode == CM_FROM_TARGET_ITEM || C.cmode == CM_BEFORE_ACTIVATE) && C.cancel_call && st > C.cancel_call)
+	if ((C.cmode == CM_FROM_HANDLER || C.cmode == CM_FROM_TARGET_ITEM || C.cmode == CM_BEFORE_ACTIVATE || C.cmode == CM_FROM_REGISTRATION) && C.cancel_call && st > C.cancel_call)
 		h_viol("handler-after-cancel", "the event handler was invoked again after dispatch_source_cancel had been called (%s)", cmn[C.cmode]);
 	// dispatch_source_cancel_and_wait is a cancel "from elsewhere" as far as the property goes: when the source has
 	// already been unregistered (peer hang-up) it returns at once and the committed invocation may still start
@@ -102,6 +103,13 @@ static void sib_handler(void *ctx) {
 	if (C.sib_events >= 3 && !sib_suspended) { dispatch_suspend(C.sib); sib_suspended = 1; }   // flag after the call: the main thread resumes only a suspension that has happened
 }
 static void target_item_cancel(void *ctx) { (void)ctx; do_cancel("item on target queue"); }
+static void registration_handler(void *ctx) {
+	(void)ctx;
+	h_log("registration handler");
+	if (C.handler_running) h_viol("handler-reentered", "registration handler ran while the event handler was running");
+	for (int k = (int)(RC.seed >> 33 & 7); k > 0; k--) sim_point();   // lets the manager deliver an event meanwhile
+	do_cancel("registration handler");
+}
 
 static void *event_source_thread(void *arg) {
 	(void)arg;
@@ -192,12 +200,18 @@ static void c16_run(void) {
 		dispatch_source_set_event_handler_f(C.sib, sib_handler);
 		dispatch_activate(C.sib);
 	}
+	if (C.cmode == CM_FROM_REGISTRATION) {
+		dispatch_source_set_registration_handler_f(C.ds, registration_handler);
+		// an event is pending by the time the registration handler returns
+		if (C.stype == ST_DATA) dispatch_source_merge_data(C.ds, 3);
+		else if (C.stype == ST_READ) { ssize_t r = write(C.fds[1], "pending", 7); (void)r; }
+	}
 	if (C.cmode == CM_BEFORE_ACTIVATE) do_cancel("main (before activation)");
 	dispatch_activate(C.ds); C.activated = 1;
 	if (C.tqkind == 2 && C.cmode != CM_AND_WAIT) { /* no marker on a global queue: accept */ }
 	sim_thread *th[4]; int n = 0;
 	th[n++] = sim_spawn(event_source_thread, NULL, "events");
-	if (C.cmode != CM_FROM_HANDLER) th[n++] = sim_spawn(canceller_thread, (void *)0, "canceller");
+	if (C.cmode != CM_FROM_HANDLER && C.cmode != CM_FROM_REGISTRATION) th[n++] = sim_spawn(canceller_thread, (void *)0, "canceller");
 	if (C.cmode == CM_TWICE) th[n++] = sim_spawn(canceller_thread, (void *)1, "canceller2");
 	C.nthreads = n;
 	h_end_fault_phase(th, n, 5 * NSEC);
